@@ -98,6 +98,17 @@ def run(ctx):
             extra.append({"seed": ctx.seed + k, "jitter": 0.0, "payloads": pl,
                           "script": [{"op": "adopt", "p": "b1"}, {"op": "adopt", "p": "b2"}, {"op": "adopt", "p": "b3"}, {"op": "adopt", "p": "f"}, {"op": "accept"}, {"op": "wait_running"}, {"op": "wait_start", "p": "b1"}, {"op": "wait_start", "p": "b2"}, {"op": "wait_start", "p": "f"},
                                      {"op": "step", "p": "b1"}, {"op": "end", "p": "f", "how": how}, {"op": "wait_end", "timeout": 4.0}], "shape": "targeted-bystander-absorbs-cancel"})
+    # two failures at nearly the same time, one of them a thread payload held between raising
+    # and handing its failure to the loop thread (the only two-step hand-over): the run ends,
+    # with one of the two as its cause, whatever the other runner is doing at that moment
+    for g in scen.FLAVS:
+        for k, (how_f, how_g) in enumerate((("exc:UserExc", "exc:LookupError"), ("val:0", "exc:UserExcSub"), ("exc:RuntimeError", "val:''"))):
+            pl = {"f": {"flavour": "threading"}, "g": {"flavour": g}, "b1": {"flavour": "asyncio", "cleanup": 1}, "b2": {"flavour": "trio", "cleanup": 1}}
+            for order in ("held-then-other", "other-while-held-released-late"):
+                script = [{"op": "adopt", "p": "b1"}, {"op": "adopt", "p": "b2"}, {"op": "adopt", "p": "f"}, {"op": "adopt", "p": "g"}, {"op": "accept"}, {"op": "wait_running"}, {"op": "wait_start", "p": "f"}, {"op": "wait_start", "p": "g"},
+                          {"op": "park", "point": "h.fail.post"}, {"op": "end", "p": "f", "how": how_f}, {"op": "wait_park", "point": "h.fail.post"}, {"op": "end", "p": "g", "how": how_g}]
+                script += ([{"op": "sleep", "ms": 5}, {"op": "release", "point": "h.fail.post"}, {"op": "wait_end", "timeout": 4.0}] if order == "held-then-other" else [{"op": "wait_end", "timeout": 4.0}, {"op": "release", "point": "h.fail.post"}, {"op": "sleep", "ms": 50}])
+                extra.append({"seed": ctx.seed + k, "jitter": 0.0, "payloads": pl, "script": script, "shape": "targeted-two-failures-one-held"})
     scen.run_family(ctx, sh, names=NAMES, allow=(), extra_scenarios=extra, mc_invariants=["FailStopSafe", "CauseFaithful", "AtMostOnce", "CleanupBeforeEnd"], mc_properties=["FailStopLive"], per_shape=16 if thorough else 6, depth=40, label="c01")
     ctx.extra["rule"] = "shapes = failing flavour x failure kind (non-None value incl. falsy ones / Exception / BaseException / KeyboardInterrupt) x registration time (queued, adopted from a thread or from a payload of each flavour, service created before or after start) with bystanders of all flavours; per shape TLC-simulated behaviours projected to the controllable actions; distinct non-trivial = distinct (shape, sequence of starts/ends/cancellations/returns observed)"
     ctx.assumptions = [
